@@ -9,6 +9,7 @@ import Driver.C02
 import Driver.C16
 import Driver.C13
 import Driver.C05
+import Driver.C07
 open Lean Driver
 
 def handlers : List (String × Handler) := [
@@ -21,7 +22,8 @@ def handlers : List (String × Handler) := [
   ("C02", Driver.C02.handle),
   ("C16", Driver.C16.handle),
   ("C13", Driver.C13.handle),
-  ("C05", Driver.C05.handle)
+  ("C05", Driver.C05.handle),
+  ("C07", Driver.C07.handle)
 ]
 
 def processLine (line : String) : String :=
